@@ -1,0 +1,36 @@
+/*
+* Verification hooks (compiled only with -DSVT_AV1_VERIF).
+* Call-outs through global function pointers that default to NULL (no effect):
+*  - svt_verif_trace_cb: event trace (EncDec segment scheduling)
+*  - svt_verif_spin_cb / svt_verif_sync_store_cb: decoder busy-wait iteration / progress-flag store
+*/
+#ifndef EbVerifHooks_h
+#define EbVerifHooks_h
+#ifdef SVT_AV1_VERIF
+#include <stdint.h>
+#ifdef __cplusplus
+extern "C" {
+#endif
+extern void (*svt_verif_trace_cb)(int kind, uint64_t a, uint64_t b, uint64_t c, uint64_t d);
+extern void (*svt_verif_spin_cb)(const volatile void *addr);
+extern void (*svt_verif_sync_store_cb)(const volatile void *addr);
+#ifdef __cplusplus
+}
+#endif
+#define SVT_VERIF_TRACE(kind, a, b, c, d)                                                         \
+    do {                                                                                          \
+        if (svt_verif_trace_cb)                                                                   \
+            svt_verif_trace_cb((kind), (uint64_t)(a), (uint64_t)(b), (uint64_t)(c), (uint64_t)(d)); \
+    } while (0)
+#define SVT_VERIF_SPIN(p)              \
+    do {                               \
+        if (svt_verif_spin_cb)         \
+            svt_verif_spin_cb((p));    \
+    } while (0)
+#define SVT_VERIF_SYNC_STORE(p)            \
+    do {                                   \
+        if (svt_verif_sync_store_cb)       \
+            svt_verif_sync_store_cb((p));  \
+    } while (0)
+#endif // SVT_AV1_VERIF
+#endif // EbVerifHooks_h
